@@ -51,6 +51,22 @@ def snapshot_levels(ml):
     return snap
 
 
+def snapshot_operators(ml):
+    """the level operators as MATRICES: entries in canonical (sorted-index) order.  A solve may bring the stored entries of a level
+    matrix into sorted order (SciPy and the relaxation setups do that in place); that is not a change of the operator."""
+    snap = []
+    for L in ml.levels:
+        d = {}
+        for nm in ('A', 'P', 'R'):
+            if hasattr(L, nm):
+                M = getattr(L, nm).copy()
+                if hasattr(M, 'sort_indices'):
+                    M.sort_indices()
+                d[nm] = (M.format, M.shape, M.data.tobytes(), M.indices.tobytes(), M.indptr.tobytes())
+        snap.append(d)
+    return snap
+
+
 def attr_sets(ml):
     out = {'solver': set(vars(ml).keys()), 'coarse': set(vars(ml.coarse_solver).keys()) if hasattr(ml.coarse_solver, '__dict__') else set()}
     for i, L in enumerate(ml.levels):
@@ -110,6 +126,11 @@ def run(ctx):
              ('sa-richardson', lambda A: pyamg.smoothed_aggregation_solver(A, smooth=('richardson', {'degree': 2}), max_coarse=3), 'sym'),
              ('sa-energy', lambda A: pyamg.smoothed_aggregation_solver(A, smooth=('energy', {'maxiter': 2}), max_coarse=3), 'sym'),
              ('sa-evolution', lambda A: pyamg.smoothed_aggregation_solver(A, strength=('evolution', {'k': 2, 'epsilon': 4.0}), max_coarse=3), 'sym'),
+             # strength measures that relax random test vectors (drawn from numpy's global generator: same seed, same hierarchy)
+             ('sa-algebraic-distance', lambda A: pyamg.smoothed_aggregation_solver(A, strength=('algebraic_distance', {'epsilon': 2.0, 'R': 4, 'k': 5}), max_coarse=3), 'sym'),
+             ('sa-affinity', lambda A: pyamg.smoothed_aggregation_solver(A, strength=('affinity', {'epsilon': 3.0, 'R': 4, 'k': 5}), max_coarse=3), 'sym'),
+             ('rootnode-algebraic-distance', lambda A: pyamg.rootnode_solver(A, strength=('algebraic_distance', {'epsilon': 2.0}), max_coarse=3), 'sym'),
+             ('rs-affinity', lambda A: pyamg.ruge_stuben_solver(sp.csr_array(A), strength=('affinity', {'epsilon': 3.0}), max_coarse=3), 'sym'),
              ('sa-improve', lambda A: pyamg.smoothed_aggregation_solver(
                  A, improve_candidates=[('gauss_seidel', {'sweep': 'symmetric', 'iterations': 2}), None], max_coarse=3), 'sym'),
              ('sa-coarse-gs', lambda A: pyamg.smoothed_aggregation_solver(A, coarse_solver='gauss_seidel', max_coarse=6), 'sym'),
@@ -170,7 +191,7 @@ def run(ctx):
             used = f(Acopy.copy())
             np.random.seed(ctx.seed + 1)
             fresh = f(Acopy.copy())
-            lv_before = snapshot_levels(used)
+            lv_before = snapshot_operators(used)
             at_before = attr_sets(used)
             hist = [random_solve_args(rng, n, cplx, sym) for _ in range(rng.randrange(1, 6))]
             forced = None
@@ -203,7 +224,7 @@ def run(ctx):
             ctx.count('history-len=%d' % len(hist))
             if xu.tobytes() != xf.tobytes() or (ru is not None and ru != rf):
                 ctx.fail('solve-depends-on-history/' + bname, 'result differs from a fresh solver by %.3g' % np.linalg.norm(xu - xf), case)
-            if snapshot_levels(used) != lv_before:
+            if snapshot_operators(used) != lv_before:
                 ctx.fail('solve-modifies-level-operator/' + bname, 'A, P or R of some level changed bytes during solves', case)
             at_after = attr_sets(used)
             for where, names in at_after.items():
